@@ -187,6 +187,13 @@ def gen(read):
     flags += [("teardown: the dispatcher unregisters the connection and leaves every channel only through the router's last-connection hook",
                dsh.count("unregister_connection(") == 1 and dsh.count("leave_all_channels(") == 1 and pos(dsh, "unregister_connection(", "x") < pos(dsh, "leave_all_channels(", "y"))]
 
+    # ---- order of the refusals (the reason a request is refused with is the first failing check, in this order) ----
+    def refusals(body, start=0):
+        return re.findall(r"Error::new\((\w+)\)", body[start:])
+    orders = [("join_channel", refusals(j)), ("leave_channel", refusals(l)), ("broadcast_payload", refusals(bp)),
+              ("set_channel_acl", refusals(sa)), ("get_channel_acl", refusals(ga)),
+              ("list_members", refusals(fn_body(ch, "list_members")))]
+
     bb = lambda x: "true" if x else "false"
     q = lambda s: '"' + s.replace('"', "'") + '"'
     out = ["(* GENERATED by translator/concflags.py from /repo/crates/server/src/channel/mod.rs, c2s/router.rs, c2s/conn.rs and",
@@ -195,7 +202,10 @@ def gen(read):
            "Definition src_ptr_check : bool := %s." % bb(ptr),
            "Definition src_idx_early : bool := %s." % bb(early), "",
            "Definition conc_source_shape : list (string * bool) :=",
-           "  [" + ";\n   ".join("(%s, %s)" % (q(t), bb(v)) for t, v in flags) + "].", ""]
+           "  [" + ";\n   ".join("(%s, %s)" % (q(t), bb(v)) for t, v in flags) + "].", "",
+           "(* the error reasons each function can refuse with, in the order of its checks *)",
+           "Definition conc_source_refusals : list (string * list string) :=",
+           "  [" + ";\n   ".join("(%s, [%s])" % (q(n), "; ".join(q(x) for x in xs)) for n, xs in orders) + "].", ""]
     return "\n".join(out)
 
 
@@ -204,7 +214,8 @@ def fallback(msg):
     return "\n".join(["(* GENERATED by translator/concflags.py -- %s *)" % msg.replace("*)", "* )"),
                       "From Coq Require Import String List Bool.", "Import ListNotations.", "Open Scope string_scope.", "",
                       "Definition src_ptr_check : bool := false.", "Definition src_idx_early : bool := false.", "",
-                      "Definition conc_source_shape : list (string * bool) := [(%s, false)]." % q, ""])
+                      "Definition conc_source_shape : list (string * bool) := [(%s, false)]." % q,
+                      "Definition conc_source_refusals : list (string * list string) := [].", ""])
 
 
 if __name__ == "__main__":
